@@ -389,7 +389,8 @@ pub fn gen_sink(rng: &mut Rng, allow_eintr: bool) -> SinkSpec {
     }
 }
 
-pub fn base_spec(property: &str, plan: &str, seed: u64, recorder: RecorderSpec) -> ScenarioSpec {
+pub fn base_spec(property: &str, plan: &str, seed: u64, mut recorder: RecorderSpec) -> ScenarioSpec {
+    crate::recorder::normalise(&mut recorder);
     ScenarioSpec {
         property: property.to_string(),
         plan: plan.to_string(),
